@@ -128,7 +128,7 @@ struct Recorder {
           if (VEC && op == "zero_entry") {
             bool z = entry_zero(static_cast<unsigned>(geti(a, "c")), static_cast<unsigned>(geti(a, "r")));
             if (z && avoid("C09-vector-zero-entry-absent")) continue;
-            if (!z && Mdl::RA && avoid("C09-vector-zero-entry-row")) continue;
+            if (!z && (avoid("C09-vector-add-from-lazy-source") || (Mdl::RA && avoid("C09-vector-zero-entry-row")))) continue;
           }
           if (Mdl::Swaps) {
             unsigned ncols = static_cast<unsigned>(m.m().get_number_of_columns());
